@@ -5,6 +5,11 @@ import json, subprocess, os
 ROOT = os.path.dirname(os.path.abspath(__file__))
 
 CHECKS = {
+ "C02": dict(
+  technique="exhaustive operator x operand-producer matrix + rapid nested expressions, oracle = independent reference evaluator (IEEE double arithmetic, exact-rational modulo, big-integer powers, 64-bit bitwise), equality laws checked relationally",
+  text="Every binary operator x every ordered pair of 48 operand producers (all value kinds; boundary magnitudes +-0, 0.5, 63/64/65, 2^31, 2^53, 2^63, 1e308, +-Inf, NaN; integer-typed bitwise results; numeric-looking strings) and every unary operator x producer is run through the real interpreter and compared with the reference evaluator on stdout, outcome class and diagnostic line; symmetry/negation/reflexivity of == and != are checked on every unordered pair without the model; random nested expressions to depth 5 over the pool and random doubles. Exploration: the matrix is exhaustive, nesting is sampled.",
+  note="Trusted: the reference evaluator's operator table, math/big; pow compared within 1 ulp of the platform library unless the result is an exactly representable integer power. Unspecified by the properties and therefore not asserted: numeric-looking strings under numeric operators, equality of distinct containers, integral operands outside int64 under bitwise operators.",
+  ref="4 C02"),
  "C01": dict(
   technique="exhaustive enumeration of operator adjacencies, else-attachments and short accepted token sequences + rapid random syntax trees; oracles: differential against a reference precedence-climbing parser, full-paren and ladder-minimal round trips, metamorphic parenthesisation on program output",
   text="Every sequence of <=3 adjacent operator items (17 binary, both spellings of the logical operators, =, 3 prefix, 4 postfix forms), every sequence of <=6/<=8 statement fragments around if/else/while/for/blocks, every accepted token sequence of <=5/<=6 tokens over a 42-token alphabet, and random trees to depth 8 are parsed by the real parser; the tree (walked through exported node fields) must equal the tree the documented ladder prescribes, and must survive being written out with full and with ladder-minimal parentheses; arithmetic programs must print the same with and without ladder-agreeing parentheses. Exploration: exhaustive inside the stated bounds, sampled beyond.",
